@@ -7,22 +7,23 @@ import (
 )
 
 var families = map[string]func(*Runner){
-	"happy":     FamilyHappy,
-	"crash":     FamilyCrash,
-	"subsets":   FamilySubsets,
-	"fault":     FamilyFaults,
-	"recrash":   FamilyCrashInRecovery,
-	"instances": FamilyInstances,
-	"startup":   FamilyStartup,
-	"dedup":     FamilyDedup,
-	"tamper":    FamilyTamper,
-	"pool":      FamilyPool,
-	"clock":     FamilyClock,
-	"replay":    FamilyReplay,
-	"more":      FamilyMore,
+	"happy":        FamilyHappy,
+	"crash":        FamilyCrash,
+	"subsets":      FamilySubsets,
+	"fault":        FamilyFaults,
+	"recrash":      FamilyCrashInRecovery,
+	"instances":    FamilyInstances,
+	"startup":      FamilyStartup,
+	"dedup":        FamilyDedup,
+	"tamper":       FamilyTamper,
+	"pool":         FamilyPool,
+	"clock":        FamilyClock,
+	"replay":       FamilyReplay,
+	"more":         FamilyMore,
+	"tamperbundle": FamilyTamperBundle,
 }
 
-var familyOrder = []string{"happy", "crash", "subsets", "fault", "recrash", "instances", "startup", "dedup", "tamper", "pool", "clock", "replay", "more"}
+var familyOrder = []string{"happy", "crash", "subsets", "fault", "recrash", "instances", "startup", "dedup", "tamper", "pool", "clock", "replay", "more", "tamperbundle"}
 
 // TestCorpus records the scenario corpus. Environment: VERIF_OUT (ndjson file to
 // append to), VERIF_TIER, VERIF_SEED, VERIF_SHARD=i/n, VERIF_FAMILIES (comma
